@@ -699,7 +699,7 @@ func (vc *FnVC) copyBuiltin(in *ssa.Call) {
 		if !vc.rootIsFresh(arr) && vc.fc != nil {
 			var alts []string
 			for _, mine := range vc.modItems {
-				if mine.kind == "elems" {
+				if mine.kind == "elems" || (mine.kind == "objrange" && mine.lo == "") {
 					alts = append(alts, fmt.Sprintf("(= %s %s)", arr, mine.ref))
 				}
 			}
@@ -864,7 +864,7 @@ func (vc *FnVC) appendBuiltin(in *ssa.Call) {
 			arr := fmt.Sprintf("(s.arr %s)", s.S)
 			var alts []string
 			for _, mine := range vc.modItems {
-				if mine.kind == "elems" {
+				if mine.kind == "elems" || (mine.kind == "objrange" && mine.lo == "") {
 					alts = append(alts, fmt.Sprintf("(= %s %s)", arr, mine.ref))
 				}
 			}
@@ -1289,6 +1289,17 @@ func (vc *FnVC) inlineSingleBlock(fn *ssa.Function, args []Term, bindings []ssa.
 		switch in.(type) {
 		case *ssa.Defer, *ssa.RunDefers, *ssa.Go, *ssa.Panic, *ssa.Send, *ssa.Select, *ssa.If, *ssa.Jump:
 			return nil, false
+		}
+	}
+	vc.inlineSeq++
+	savedPrefix := vc.inlinePrefix
+	vc.inlinePrefix = fmt.Sprintf("in%d$", vc.inlineSeq)
+	defer func() { vc.inlinePrefix = savedPrefix }()
+	// forget values of an earlier inlining of the same body
+	for _, in := range fn.Blocks[0].Instrs {
+		if v, ok := in.(ssa.Value); ok {
+			delete(vc.vals, v)
+			delete(vc.locs, v)
 		}
 	}
 	for i, p := range fn.Params {
